@@ -120,15 +120,39 @@ def op_mutate(st, hid_new, hid, mseed):
             continue
         if walker.canon_text(m, "content") == base:
             continue
+        if not _usable(m):
+            # the reflective mutation produced an object whose derived
+            # properties raise (e.g. a LoopyCall naming an entrypoint that
+            # does not exist): not a meaningful pair
+            continue
         st.h[hid_new] = m
-        st.meta[hid_new] = {"origin": ("mutate", hid, sig)}
+        st.meta[hid_new] = {"origin": ("mutate", hid, sig), "tainted": True}
         return {"sig": sig, **_info(st, hid_new)}
     return {"sig": None}
+
+
+def _usable(obj):
+    import pytato as pt
+    try:
+        for v in walker.pytato_nodes(obj):
+            if isinstance(v, pt.Array):
+                v.shape, v.dtype, v.axes, v.tags
+        hash(obj)
+        obj == obj  # noqa: B015
+        return True
+    except Exception:  # noqa: BLE001
+        return False
+
+
+def _taint(st, hid_new, hid):
+    if st.meta.get(hid, {}).get("tainted"):
+        st.meta[hid_new]["tainted"] = True
 
 
 def op_reorder(st, hid_new, hid):
     st.h[hid_new] = mutate.reorder_mappings(st.h[hid])
     st.meta[hid_new] = {"origin": ("reorder", hid)}
+    _taint(st, hid_new, hid)
     return _info(st, hid_new)
 
 
@@ -136,6 +160,7 @@ def op_relayout(st, hid_new, hid, seed):
     new, n = mutate.relayout(st.h[hid], random.Random(f"relayout:{seed}"))
     st.h[hid_new] = new
     st.meta[hid_new] = {"origin": ("relayout", hid)}
+    _taint(st, hid_new, hid)
     return {"changed": n, **_info(st, hid_new)}
 
 
@@ -144,6 +169,7 @@ def op_sub(st, hid_new, hid, index):
     v = nodes[index % len(nodes)]
     st.h[hid_new] = v
     st.meta[hid_new] = {"origin": ("sub", hid)}
+    _taint(st, hid_new, hid)
     return {"type": type(v).__name__, **_info(st, hid_new)}
 
 
@@ -167,6 +193,7 @@ def op_api_roundtrip(st, hid_new, hid):
         new = copy.copy(obj)
     st.h[hid_new] = new
     st.meta[hid_new] = {"origin": ("api-roundtrip", hid)}
+    _taint(st, hid_new, hid)
     return _info(st, hid_new)
 
 
@@ -185,11 +212,15 @@ def op_pickle(st, hid):
     return pickle.dumps(st.h[hid], protocol=pickle.HIGHEST_PROTOCOL)
 
 
-def op_unpickle(st, hid_new, blob):
+def op_is_tainted(st, hid):
+    return bool(st.meta.get(hid, {}).get("tainted"))
+
+
+def op_unpickle(st, hid_new, blob, tainted=False):
     obj = pickle.loads(blob)
     leaks = _leaks(obj)
     st.h[hid_new] = obj
-    st.meta[hid_new] = {"origin": ("unpickle",)}
+    st.meta[hid_new] = {"origin": ("unpickle",), "tainted": tainted}
     return {"leaks": leaks, **_info(st, hid_new)}
 
 
@@ -198,6 +229,7 @@ def op_deepcopy(st, hid_new, hid):
     leaks = _leaks(obj)
     st.h[hid_new] = obj
     st.meta[hid_new] = {"origin": ("deepcopy", hid)}
+    _taint(st, hid_new, hid)
     return {"leaks": leaks, **_info(st, hid_new)}
 
 
@@ -259,9 +291,15 @@ def op_check(st, seed, with_keys=True, max_pairs=400):
     ccs = {}
     ccl = {}
     keys = {}
-    for h in hids:
+    for h in list(hids):
         obj = st.h[h]
-        cid[h] = walker.canon_key(obj, "identity")
+        try:
+            cid[h] = walker.canon_key(obj, "identity")
+        except Exception:  # noqa: BLE001
+            if st.meta.get(h, {}).get("tainted"):
+                hids.remove(h)
+                continue
+            raise
         if with_keys:
             ccs[h] = walker.canon_key(obj, "content", scalar_types=True)
             ccl[h] = walker.canon_key(obj, "content", scalar_types=False)
@@ -269,8 +307,12 @@ def op_check(st, seed, with_keys=True, max_pairs=400):
                 keys[h] = st.key_builder()(obj)
             except Exception as e:  # noqa: BLE001
                 keys[h] = None
-                viol.append({"class": f"key-raised:{type(e).__name__}",
-                             "handles": [h], "detail": str(e)[:200]})
+                if st.meta.get(h, {}).get("tainted"):
+                    cnt["skipped_ill_formed_mutant"] = \
+                        cnt.get("skipped_ill_formed_mutant", 0) + 1
+                else:
+                    viol.append({"class": f"key-raised:{type(e).__name__}",
+                                 "handles": [h], "detail": str(e)[:200]})
     pairs = [(a, b) for i, a in enumerate(hids) for b in hids[i:]]
     if len(pairs) > max_pairs:
         pairs = rng.sample(pairs, max_pairs)
@@ -286,8 +328,13 @@ def op_check(st, seed, with_keys=True, max_pairs=400):
             e2 = bool(y == x)
             ne = bool(x != y)
         except Exception as e:  # noqa: BLE001
-            viol.append({"class": f"eq-raised:{type(e).__name__}",
-                         "handles": [a, b], "detail": str(e)[:200]})
+            if st.meta.get(a, {}).get("tainted") or \
+                    st.meta.get(b, {}).get("tainted"):
+                cnt["skipped_ill_formed_mutant"] = \
+                    cnt.get("skipped_ill_formed_mutant", 0) + 1
+            else:
+                viol.append({"class": f"eq-raised:{type(e).__name__}",
+                             "handles": [a, b], "detail": str(e)[:200]})
             continue
         eq_rel[(a, b)] = e1
         want = cid[a] == cid[b]
